@@ -19,19 +19,22 @@ Definition bounds_prop (D : nat) (o : obs) : Prop :=
     let g := val0 (cnth (o_gua o) j) in
     let d := val0 (cnth (o_des o) j) in
     g <= d + slack
-    /\ (forall c, cnth (o_rcap o) j = Some c -> d <= qmax g c + slack)
+    /\ match cnth (o_rcap o) j with
+       | Some c => d <= qmax g c + slack
+       | None => d <= g + slack      (* no realCapability entry: nothing beyond the guarantee *)
+       end
     /\ d <= qmax g (val0 (cnth (o_req o) j)) + slack.
 
 Lemma law_bounds_q_iff D o : law_bounds_q D o = true <-> bounds_prop D o.
 Proof.
-  unfold law_bounds_q, bounds_prop. rewrite alldims_spec.
+  unfold law_bounds_q, law_bounds_q_gen, bounds_prop. rewrite alldims_spec.
   split; intros H j Hj; specialize (H j Hj); cbv zeta in *.
   - apply andb_true_iff in H. destruct H as [H H3]. apply andb_true_iff in H. destruct H as [H1 H2].
     split; [apply Qle_bool_iff; exact H1|]. split; [|apply Qle_bool_iff; exact H3].
-    intros c E. rewrite E in H2. apply Qle_bool_iff. exact H2.
+    destruct (cnth (o_rcap o) j); cbn [negb orb] in H2; apply Qle_bool_iff; exact H2.
   - destruct H as (H1 & H2 & H3). apply andb_true_iff. split; [apply andb_true_iff; split|].
     + apply Qle_bool_iff. exact H1.
-    + destruct (cnth (o_rcap o) j) as [c|]; [|reflexivity]. apply Qle_bool_iff. apply H2. reflexivity.
+    + destruct (cnth (o_rcap o) j) as [c|]; cbn [negb orb]; apply Qle_bool_iff; exact H2.
     + apply Qle_bool_iff. exact H3.
 Qed.
 
@@ -57,12 +60,16 @@ Qed.
 (* --- 105: realCapability reserves the other queues' guarantees --- *)
 Lemma law_reserve_sound D total tg os :
   law_reserve false D total tg os = true ->
-  Forall (fun o => forall j c, (j < D)%nat -> cnth (o_rcap o) j = Some c ->
+  Forall (fun o => forall j, (j < D)%nat ->
+            (forall t, cnth total j = Some t -> cnth (o_rcap o) j <> None)
+            /\ forall c, cnth (o_rcap o) j = Some c ->
             c <= qmax 0 (val0 (cnth total j) - val0 (cnth tg j)) + val0 (cnth (o_gua o) j) + slack) os.
 Proof.
   unfold law_reserve. rewrite forallb_forall, Forall_forall.
   intros H o Ho. specialize (H o Ho). rewrite alldims_spec in H.
-  intros j c Hj E. specialize (H j Hj). rewrite E in H.
+  intros j Hj. specialize (H j Hj). split.
+  { intros t Et N. rewrite N, Et in H. discriminate. }
+  intros c E. rewrite E in H.
   destruct (cnth total j) as [t|]; cbn [val0]; apply Qle_bool_iff in H.
   - exact H.
   - assert (0 <= qmax 0 (0 - val0 (cnth tg j))) by (qcases; lra). lra.
@@ -130,14 +137,60 @@ Qed.
 Definition obs_of (q : qattr) : obs :=
   mkO (q_w q) (q_gua q) (q_rcap q) (q_req q) (q_alloc q) (q_des q) (overused q).
 
-Lemma law_bounds_q_accepts_model D q : upper_ok q -> lower_ok q -> law_bounds_q D (obs_of q) = true.
+Lemma law_bounds_q_accepts_model D q :
+  upper_ok q -> lower_ok q ->
+  (forall j, cnth (q_rcap q) j = None -> val0 (cnth (q_des q) j) <= val0 (cnth (q_gua q) j)) ->
+  law_bounds_q D (obs_of q) = true.
 Proof.
-  intros (_ & Hu) Hl. apply law_bounds_q_iff. intros j _. cbv zeta. unfold obs_of. cbn [o_gua o_des o_rcap o_req].
+  intros (_ & Hu) Hl Hn. apply law_bounds_q_iff. intros j _. cbv zeta. unfold obs_of. cbn [o_gua o_des o_rcap o_req].
   destruct (Hu j) as (H1 & H2). specialize (Hl j). unfold slack.
-  split; [lra|]. split; [|lra]. intros c E. specialize (H1 c E). lra.
+  split; [lra|]. split; [|lra].
+  destruct (cnth (q_rcap q) j) as [c|] eqn:E; [specialize (H1 c eq_refl); lra | specialize (Hn j E); lra].
 Qed.
 
 Lemma law_overused_q_accepts_model D q : law_overused_q D (obs_of q) = true.
 Proof.
   unfold law_overused_q, obs_of. cbn. unfold overused. rewrite eqb_reflx. apply orb_true_r.
+Qed.
+
+
+(* --- 108 / 109 / 111 / 112 --- *)
+Lemma law_runs_identical_iff D ab :
+  law_runs_identical D ab = true <->
+  Forall (fun p : obs * obs => forall j, (j < D)%nat ->
+            close (val0 (cnth (o_des (fst p)) j)) (val0 (cnth (o_des (snd p)) j)) = true) ab.
+Proof.
+  unfold law_runs_identical. rewrite forallb_forall, Forall_forall.
+  split; intros H p Hp; specialize (H p Hp); destruct p as [a b]; cbn [fst snd] in *;
+    apply alldims_spec; exact H.
+Qed.
+
+Lemma law_runs_agree_sound D ab :
+  law_runs_agree D ab = true ->
+  Forall (fun p : obs * obs => forall j, (j < D)%nat ->
+            qabs (val0 (cnth (o_des (fst p)) j) - val0 (cnth (o_des (snd p)) j)) <= eps + slack) ab.
+Proof.
+  unfold law_runs_agree. rewrite forallb_forall, Forall_forall.
+  intros H p Hp. specialize (H p Hp). destruct p as [a b]. cbn [fst snd].
+  apply andb_true_iff in H. destruct H as [H _]. rewrite alldims_spec in H.
+  intros j Hj. apply Qle_bool_iff. apply H. exact Hj.
+Qed.
+
+Lemma law_capability_sound D total qs :
+  law_capability D total qs = true ->
+  Forall (fun q : vec * vec * vec => let '(cap, g, d) := q in
+            forall j t y, (j < D)%nat -> cnth total j = Some t -> cnth cap j = Some y ->
+                          val0 (cnth g j) <= y -> val0 (cnth d j) <= y + slack) qs.
+Proof.
+  unfold law_capability. rewrite forallb_forall, Forall_forall.
+  intros H q Hq. specialize (H q Hq). destruct q as [[cap g] d]. rewrite alldims_spec in H.
+  intros j t y Hj Et Ey Hg. specialize (H j Hj). rewrite Et, Ey in H.
+  apply Qle_bool_iff in Hg. rewrite Hg in H. apply Qle_bool_iff. exact H.
+Qed.
+
+Lemma law_order_excused_iff D r ab :
+  law_order_excused D r ab = true <->
+  law_runs_identical D ab = true \/ (r = false /\ max_dev_ok D ab = true).
+Proof.
+  unfold law_order_excused. rewrite orb_true_iff, andb_true_iff, negb_true_iff. tauto.
 Qed.
